@@ -391,6 +391,8 @@ SHAPES = {
     "async_fn": (["async def test_t(a):"], None), "decorated": (["@pytest.mark.skip", "def test_t(a):"], None),
     "star_args": (["def test_t(*args):"], None), "kwargs": (["def test_t(**kw):"], None), "kwonly": (["def test_t(*, a):"], None),
     "comment_after_colon": (["def test_t(a):  # note"], None),
+    "comment_with_parens": (["def test_t(a):  # slow (network, client) :)"], None),
+    "nested_helper": (["def test_t(a):", "    def attempt(n):"], "    "),
     "fixture_fn": (["@pytest.fixture", "def test_t(a):"], None),
     "followed_by_other_fn": (["def test_t() -> None:"], None),
 }
@@ -628,6 +630,8 @@ def check_c17(tier):
                             if r.get("completion_fx") and r["completion_fx"][0].get("additionalTextEdits") else None)):
             if new is None:
                 continue
+            if cs["shape"] == "nested_helper" and label != "quick fix":
+                continue        # a completion INSIDE the helper: which function "the same function" is there is not judged
             e2 = dict(ex, edit=label, result=new)
             try:
                 tree1 = _ast.parse(new)
@@ -1189,9 +1193,53 @@ def check_c11(tier):
             V.classify(c11_stale_dev(c), {"valid_version": VALID[c["v"]], "then_unparsable": BROKEN[c["b"]], "result": r},
                        "the server died or stopped answering after a valid version was replaced by an unparsable one")
 
+    # ---- very large hostile definitions through the real binary: the handlers format what the library recorded (docstring, return
+    # type) for hover and for every completion item; both alignments, so that any byte limit falls inside a character
+    big_jobs = [(c, pad) for (c, pad, _hc) in long_cases if c["slot"] in ("doc_line_prefix", "return_annot")]
+    rnd.shuffle(big_jobs)
+    big_jobs = big_jobs[:24 if tier == "quick" else 400]
+
+    def big_session(job):
+        n, (c, pad) = job
+        s0 = "".join(CLS[k] for k in c["str"])
+        big = pad + s0 * (70000 // max(1, len(s0.encode("utf-8"))))
+        root = os.path.join(base, "big%d" % n)
+        os.makedirs(os.path.join(root, "d"), exist_ok=True)
+        with open(os.path.join(root, "conftest.py"), "w") as fh:
+            fh.write(HOST_CONFTEST)
+        ctext = slot_text(c["slot"], big)
+        fname = "f_doc" if c["slot"] == "doc_line_prefix" else "f_ret"
+        cpath, tpath = os.path.join(root, "d", "conftest.py"), os.path.join(root, "d", "test_u.py")
+        ttext = "def test_u(%s, fx):\n    pass\n\n\ndef test_v(\n" % fname
+        srv = lsp.Server(timeout=30)
+        try:
+            srv.initialize(root)
+            srv.did_open(cpath, ctext)
+            srv.did_open(tpath, ttext)
+            n_req = all_requests(srv, cpath, [(4, 4), (4, 6), (4, 10)])
+            n_req += all_requests(srv, tpath, [(0, 11), (0, 12), (0, 18), (4, 11)])
+            return {"alive": srv.alive(), "requests": n_req}
+        except (lsp.ServerDied, lsp.Timeout) as e:
+            return {"error": str(e)}
+        finally:
+            srv.close()
+            shutil.rmtree(root, ignore_errors=True)
+
+    for (c, pad), r in zip(big_jobs, lsp.run_parallel(list(enumerate(big_jobs)), big_session, workers=6)):
+        V.count()
+        V.nontriv(json.dumps(["big_lsp", c["slot"], c["str"], pad]))
+        if r is None or "__exception__" in r:
+            raise C.ToolError("LSP session failed: %r" % (r,))
+        if "error" in r or not r.get("alive"):
+            V.classify(c11_dev(r), {"slot": c["slot"], "classes": c["str"], "repeated_to_bytes": 70000, "alignment_prefix": pad, "result": r},
+                       "the server died or stopped answering on a very large hostile definition (hover / completion / symbols)")
+
     def cfg_session(job):
         n, c = job
         s = "".join(CLS[k] for k in c["str"])
+        if c["slot"] == "pth_line" and int(hashlib.md5(s.encode("utf-8", "surrogatepass")).hexdigest(), 16) % 2:
+            # the import-hook style of editable installs: the .pth holds only an `import` line, no path
+            s = "import " + s
         root = os.path.join(base, "cf%d" % n)
         sp = os.path.join(root, ".venv", "lib", "python3.11", "site-packages")
         os.makedirs(os.path.join(sp, "tp"), exist_ok=True)
@@ -1206,7 +1254,9 @@ def check_c11(tier):
             with open(os.path.join(sp, "__editable__.tp-1.0.pth"), "w", encoding="utf-8", errors="surrogatepass") as fh:
                 fh.write(s + "\n")
             with open(os.path.join(sp, "tp-1.0.dist-info", "direct_url.json"), "w") as fh:
-                fh.write('{"url": "file:///x", "dir_info": {"editable": true}}')
+                # the recorded source directory EXISTS (a server that falls back to it when the .pth names no path finds it)
+                os.makedirs(os.path.join(root, "extsrc"), exist_ok=True)
+                fh.write(json.dumps({"url": "file://" + os.path.join(root, "extsrc"), "dir_info": {"editable": True}}))
         elif c["slot"] == "pyproject_codes":
             pp = '[tool.pytest-language-server]\ndisabled_diagnostics = ["%s", "scope-mismatch"]\n' % s
         elif c["slot"] == "pyproject_exclude":
